@@ -154,6 +154,8 @@ func (language *Language) CompilerPasses() compiler.Passes {
 		&compiler.DisjunctionWithNullToOptional{},
 		&compiler.DisjunctionOfConstantsToEnum{},
 		&compiler.AnonymousEnumToExplicitType{},
+		// `1`, `2`: enum members are written as static methods
+		&compiler.RenameNumericEnumValues{},
 		&compiler.SanitizeEnumMemberNames{},
 		&compiler.FlattenDisjunctions{},
 		// flattening can leave `T | null` behind
